@@ -281,6 +281,8 @@ class Scanner:
             if od is not None and od["decl"] in tr.env and od["decl"] in self.locals:
                 # a local object bound to an expression (auto bp = ps->getProjection(0)[n]) denotes that expression
                 oname = str(tr.env[od["decl"]]).replace(" ", "")
+                if n["callee"].split("::")[-1] == "size" and not n.get("args") and isinstance(tr.env[od["decl"]], sp.Indexed):
+                    return SIZE(tr.env[od["decl"]])          # size of the row the local stands for: the same term a direct X[i].size() gives
             try:
                 args = [tr.conv(a) for a in n["args"]]
             except Unconvertible:
